@@ -480,6 +480,11 @@ class C05(RunSpec):
         p["leaf"] = _cycle(ALL_LEAVES, idx, 1)
         p["levels"] = [2, 2, 3, 3, 1]
         p["level_limit"] = rng.randint(2, 4)
+        if p["gsc"] == "precision" and (idx // 8) % 2:
+            # an optimum value far from zero with a precision far below 1e-9 of its magnitude (f_opt = 1e9, eps = 1e-4): the rule is absolute
+            p["fam"] = "offset"
+        if p["gsc"] == "fevals" and (idx // 8) % 3 == 0:
+            p["levels"] = [2, 3]
         if idx % 10 == 3:
             # AllStopped with hibernation: the state "every awake deme has stopped, a sleeping one is still active" must not count as stopped
             p.update({"gsc": "allstopped", "hibernation": True, "n_levels": 2, "sprout": _cycle(["nbc", "simple", "nbc"], idx // 10), "level_limit": 2,
@@ -601,6 +606,8 @@ class C05(RunSpec):
         fl += [("C05.gsc_consulted_while_only_sleeping_demes_are_active", 2, "GSC consulted while every awake deme has stopped and a sleeping one is still active")]
         fl += [("reruns_of_a_finished_tree", 5, "run() called again on a finished tree"), ("explicit_steps_before_run", 5, "runs carried out in pieces (run_step() calls, then run())")]
         fl += [(f"C05.metaepoch_entered_after_true_with_2_or_more_generations_configured.{e}", 1, "wind-down of an engine configured for >= 2 generations per metaepoch") for e in ("EADeme", "DEDeme", "SHADEDeme", "CMADeme")]
+        fl += [("C05.precision_gsc_with_precision_far_below_the_optimum_s_magnitude", 20, "precision GSC consulted with a precision below 1e-9 * |optimum|"),
+               ("C05.fevals_root_weighting_given_as_plain_string_consulted_with_child_demes", 5, "FitnessEvalLimitReached(weights='root' as a plain string) consulted on a tree with child demes")]
         fl += [("C05.targeted_runs_hit_the_chosen_consultation", 3, "pilot-then-target placements that hit the chosen consultation")]
         fl += [
             ("C05.first_true_inside_with_2_to_run", 1, "first-true inside a metaepoch with >=2 demes still to run"),
